@@ -1,7 +1,7 @@
 #!/usr/bin/env python3
-"""Regenerates MANIFEST.json from manifest_src.json (per-property texts) + the list of built checks."""
-import json, sys
-src = json.load(open('/verif/manifest_src.json'))
+"""Regenerates MANIFEST.json from manifest_texts.py."""
+import json
+from manifest_texts import BUILT, T
 ENV = "GOFLAGS=-mod=mod GOPROXY=off GOSUMDB=off GOTOOLCHAIN=local GOWORK=off"
 m = {
  "version": 1,
@@ -13,24 +13,27 @@ m = {
   "source_commits": [],
   "add_only": True
  },
- "engines": [{"name": "hcsa", "path": "/verif/hcsa", "serves_properties": [c["property_id"] for c in src["checks"]],
+ "engines": [{"name": "hcsa", "path": "/verif/hcsa", "serves_properties": BUILT,
    "kind_free_text": "repository-specific static analyser over go/types + go/ssa + VTA call graph (golang.org/x/tools v0.29.0); rebuilds its view of /repo on every run, executes no hc code"}],
  "checks": [],
- "notes": src.get("notes", ""),
- "not_applicable": src.get("not_applicable", [])
+ "notes": "All checks are static analyses of /repo's current working tree; no hc code, test or solver is executed. Defects of the pinned tree were repaired by 19 'fix:' commits in /repo (see /verif/known_findings.json and DESIGN.md section 4). /verif/seeded holds breaking changes used to test the checker.",
+ "not_applicable": []
 }
-for c in src["checks"]:
-    pid = c["property_id"]
+for pid in sorted(T):
+    level, text, note, tech = T[pid]
+    if pid not in BUILT:
+        m["not_applicable"].append({"property_id": pid, "reason": "check under construction in this session; its structural clauses (DESIGN.md section 3) will be claimed once the rules are built"})
+        continue
     m["checks"].append({
       "property_id": pid,
       "quick_cmd": f"/verif/bin/hcsa check {pid} -tier quick",
       "thorough_cmd": f"/verif/bin/hcsa check {pid} -tier thorough",
       "evidence_file": f"/verif/evidence/{pid}.json",
-      "replay_cmd_template": "/verif/bin/hcsa explain {path}",
+      "replay_cmd_template": "cat {path}",
       "engine": "hcsa",
-      "level_claimed": {"category": c["level"], "text": c["text"], "design_ref": c.get("design_ref", f"DESIGN.md section 3, {pid}")},
-      "level_note": c["note"],
-      "technique": c["technique"],
+      "level_claimed": {"category": level, "text": text, "design_ref": f"DESIGN.md section 3, {pid}"},
+      "level_note": note,
+      "technique": "static analysis: " + tech,
     })
 json.dump(m, open('/verif/MANIFEST.json', 'w'), indent=1)
 print("checks:", len(m["checks"]), "not_applicable:", len(m["not_applicable"]))
